@@ -89,12 +89,39 @@ func vC20ZipCreate(z *zip.Writer, name string) (io.Writer, error) {
 }
 
 func vC20ZipClose(z *zip.Writer) error {
-	// the recorder's container format: a marker the harness recognises
-	_, err := vZip.out.Write([]byte("MODELZIP"))
-	return err
+	// the recorder's container format: a marker, then name NUL data SOH per entry
+	if _, err := vZip.out.Write([]byte("MODELZIP")); err != nil {
+		return err
+	}
+	for _, e := range vZip.entries {
+		vZip.out.Write([]byte(e.name))
+		vZip.out.Write([]byte{0})
+		vZip.out.Write(e.data)
+		vZip.out.Write([]byte{1})
+	}
+	return nil
 }
 
-func vC20CacheDo(c *par.Cache, key any, f func() any) any { return f() }
+// par.Cache.Do, sequentially: the function runs once per (cache, key) and its result is kept
+// (what C10 establishes under concurrency).
+type vMemoEntry struct {
+	c   *par.Cache
+	key any
+	val any
+}
+
+var vMemo []vMemoEntry
+
+func vC20CacheDo(c *par.Cache, key any, f func() any) any {
+	for _, m := range vMemo {
+		if m.c == c && m.key == key {
+			return m.val
+		}
+	}
+	v := f()
+	vMemo = append(vMemo, vMemoEntry{c, key, v})
+	return v
+}
 
 var vC20Stubs = map[string]any{
 	"stub:net/http.NotFound":                 vC20NotFound,
@@ -214,6 +241,7 @@ func VerifC20Serve() {
 	rt.Observe("request", u)
 	w := &vResp{}
 	vZip = nil
+	vMemo = nil
 	srv.handler(w, &http.Request{URL: &url.URL{Path: u}})
 
 	have := target < len(vMenu) && present[target] && kind != 5
@@ -267,7 +295,7 @@ func VerifC20Serve() {
 			rt.Assert(w.status == 404 && len(w.body) == 0, "missing-version-is-404")
 			return
 		}
-		rt.Assert(w.status == 200 && string(w.body) == "MODELZIP" && vZip != nil, "zip-served")
+		rt.Assert(w.status == 200 && strings.HasPrefix(string(w.body), "MODELZIP") && vZip != nil, "zip-served")
 		if vZip == nil {
 			return
 		}
@@ -290,6 +318,24 @@ func VerifC20Serve() {
 		}
 		rt.Assert(len(vZip.entries) == wantN, "zip-holds-nothing-else")
 		rt.Reach("zip-200")
+		// the same zip again, after the zip of another stored module was built in between:
+		// the response is the same bytes
+		first := append([]byte{}, w.body...)
+		for i, m := range vMenu {
+			if present[i] && i != target {
+				ep, _ := module.EscapePath(m.path)
+				ev, _ := module.EscapeVersion(m.vers)
+				srv.handler(&vResp{}, &http.Request{URL: &url.URL{Path: "/mod/" + ep + "/@v/" + ev + ".zip"}})
+				rt.Reach("another-zip-built-in-between")
+				break
+			}
+		}
+		w2 := &vResp{}
+		srv.handler(w2, &http.Request{URL: &url.URL{Path: u}})
+		rt.Assert(w2.status == 200 && len(w2.body) == len(first), "repeated-zip-request-same-length")
+		if len(w2.body) == len(first) {
+			rt.Assert(rt.BytesEq(w2.body, first), "repeated-zip-request-same-bytes")
+		}
 	case 4:
 		rt.Assert(w.status == 404 && len(w.body) == 0, "unknown-endpoint-is-404")
 	case 5:
